@@ -24,6 +24,7 @@ def check(repo, tier="quick"):
     res.rule("C19.b", "every dequeued node enqueues both successor families (consume next required symbol; insert each candidate) unless pruned by the depth limit or an empty candidate set")
     res.rule("C19.c", "soundness: the only return of a sequence is under `nothing remains and all matchers complete`; matchers are deep-copied before being advanced; successors extend the prefix by exactly the symbol matched")
     res.rule("C19.d", "depth limit: reset to the configured limit on the consume branch, decremented on the insert branch, tested before inserting")
+    res.rule("C19.f", "history independence: symbol_re and the encoder's sequence builder keep no state between calls; no swapped same-named arguments")
     res.rule("C19.e", "encoder.make_sequence passes the generic pattern and the level's own table cell and uses the result unchanged")
 
     m, fn = repo.func("symbol_re:make_matching_sequence")
@@ -208,6 +209,11 @@ def check(repo, tier="quick"):
     res.check(ok and ok2 and tested, "C19.d", "depth:bookkeeping", where, "consume successors must carry the configured depth_limit, insert successors depth - 1, and depth <= 0 must prune before inserting", by="reset / decrement / test")
     res.check(any(isinstance(s, ast.Raise) and isinstance(s.exc, ast.Call) and dotted(s.exc.func) == "ImpossibleSequenceError" for s in fn.body[fn.body.index(loop) + 1 :]), "C19.c", "exhaustion:raises", where, "an exhausted search must raise ImpossibleSequenceError", by="raise after the loop")
     rule_e(repo, res)
+    from .. import globals_state, lints
+
+    globals_state.rule(repo, res, "C19.f", ["symbol_re", "encoder.sequence"], what="the sequence found for one call (a later call could be answered from an earlier one's matchers or search state)")
+    lints.rule(repo, res, "C19.f", ["symbol_re", "encoder.sequence"])
+    res.floor("C19.f", 5)
     res.floor("C19.a", 1)
     res.floor("C19.b", 5)
     res.floor("C19.c", 5)
